@@ -6,6 +6,13 @@ SPEC = {
         {"comp": "path_responses", "module": "QV.Model.PathResponses", "quick": 500, "thorough": 15000},
         {"comp": "pending_acks", "module": "QV.Model.PendingAcks", "quick": 200, "thorough": 6000},
         {"comp": "ack_frequency", "module": "QV.Model.AckFrequency", "quick": 1000, "thorough": 30000},
+        # decoders of peer-controlled bytes (models and totality theorems shared with C10)
+        {"comp": "frames", "module": "QV.Model.Frames", "quick": 600, "thorough": 15000},
+        {"comp": "header", "module": "QV.Model.Header", "quick": 400, "thorough": 10000},
+        {"comp": "tparams", "module": "QV.Model.TParams", "quick": 500, "thorough": 10000},
+        {"comp": "sim_c03", "module": "QV.Sys.MonC04", "quick": 60, "thorough": 1500},
+        {"comp": "sim_c03h", "module": "QV.Sys.MonC03", "quick": 112, "thorough": 3000},
+        {"comp": "sim_c03t", "module": "QV.Sys.MonC03T", "quick": 144, "thorough": 3000},
     ],
     "assumptions": [
         "CidQueue ring-buffer arithmetic is proved for the compiled value CidQueue::LEN = 5 (Props/C03.v instantiates the lemma with the generated constant by reflexivity, so another value breaks the build)",
